@@ -138,13 +138,14 @@ type PathSum struct {
 	capped       bool
 	noInline     map[*ssa.Function]bool
 	inlineLoops  map[*ssa.Function]bool
-	asEvents     map[*ssa.Function]string   // extra per-run event functions (summarised callees)
-	eventExtra   map[*ssa.Function][]string // constant arguments appended to the event of a summarised callee
-	inlinePkgs   map[string]bool            // additional packages whose functions are inlined
-	alsoRelevant []string                   // additional substrings that make a branch condition a recorded predicate
-	trackLoads   bool                       // atomic Load methods become AtomicLoad(addr) events with their result symbol
-	trackRanges  bool                       // every map-range step becomes a RangeNext(map, element) event
-	trackLinks   bool                       // link getters become NodeRead events with their own result symbols (shape analysis)
+	asEvents     map[*ssa.Function]string       // extra per-run event functions (summarised callees)
+	eventExtra   map[*ssa.Function][]string     // constant arguments appended to the event of a summarised callee
+	inlinePkgs   map[string]bool                // additional packages whose functions are inlined
+	alsoRelevant []string                       // additional substrings that make a branch condition a recorded predicate
+	trackLoads   bool                           // atomic Load methods become AtomicLoad(addr) events with their result symbol
+	trackRanges  bool                           // every map-range step becomes a RangeNext(map, element) event
+	trackLinks   bool                           // link getters become NodeRead events with their own result symbols (shape analysis)
+	decide       func(atom string) (bool, bool) // scenario: fixes the value of an otherwise unknown branch condition
 	roles        *psRoles
 	maxSeen      int
 }
@@ -1021,6 +1022,19 @@ func (ps *PathSum) branch(s *psState, f *psFrame, x *ssa.If) []*psOutcome {
 			return []*psOutcome{{S: s, Cut: true}}
 		}
 		return ps.exec(s, f)
+	}
+	if ps.decide != nil {
+		if v, ok := ps.decide(atom); ok {
+			s.preds[atom] = v
+			i := 1
+			if v != neg {
+				i = 0
+			}
+			if !ps.enter(f, f.block.Succs[i]) {
+				return []*psOutcome{{S: s, Cut: true}}
+			}
+			return ps.exec(s, f)
+		}
 	}
 	rel := relevantAtom(atom)
 	for _, sub := range ps.alsoRelevant {
